@@ -56,3 +56,33 @@ Theorem C09_goto_complete :
          In it (items (LRBase.st aut q)) -> next_sym g it = Some X -> exists q' : nat, goto aut q X = Some q'.
 Proof. exact LR0Complete.build_goto_complete. Qed.
 Print Assumptions C09_goto_complete.
+
+From YG Require Import LRBase LR0Build LR0NoDup.
+Close Scope Z_scope.
+Open Scope nat_scope.
+
+(* no duplicate states: the automaton never contains the same item list twice (item lists are sorted and duplicate-free, so equal sets are equal lists) *)
+Theorem C09_no_duplicate_states :
+  forall (g : grammar) (aut : automaton),
+         build g = Some aut ->
+         NoDup (map items aut) /\
+         (forall i j : nat, i < length aut -> j < length aut -> items (st aut i) = items (st aut j) -> i = j).
+Proof. exact LR0NoDup.build_no_duplicate_states. Qed.
+Print Assumptions C09_no_duplicate_states.
+
+From YG Require Import LRBase LR0Build.
+Close Scope Z_scope.
+Open Scope nat_scope.
+
+(* state 0 is the closure of the augmented start item, and the transition on X from a state leads to the state whose items are exactly the closure of the advanced items *)
+Theorem C09_canonical_edges :
+  forall g : grammar,
+         lhs_of g 0 = 0 ->
+         (forall r d : nat, nth_error (rhs_of g r) d <> Some eof) ->
+         forall aut : automaton,
+         build g = Some aut ->
+         items (st aut 0) = closure g [(0, 0)] /\
+         (forall q X q' : nat,
+          goto aut q X = Some q' -> items (st aut q') = closure g (advance g (items (st aut q)) X)).
+Proof. exact LR0Build.build_canonical_edges. Qed.
+Print Assumptions C09_canonical_edges.
